@@ -287,7 +287,9 @@ pub fn gen_lexeme(src: &mut Src) -> Lexeme {
 pub fn can_join(prev: &Lexeme, next: &Lexeme) -> bool {
     let wordlike = |c: Cls| matches!(c, Cls::Word | Cls::Number | Cls::NumDot | Cls::Line | Cls::Version);
     match prev.last {
-        Cls::Line | Cls::Version => false,
+        Cls::Line => false,
+        // a version number may be followed directly by `;` (or by trivia of either kind)
+        Cls::Version => matches!(next.first, Cls::Punct(';')),
         Cls::Word => matches!(next.first, Cls::Punct(_) | Cls::Str),
         Cls::Number | Cls::NumDot => matches!(next.first, Cls::Punct(c) if c != '.') || matches!(next.first, Cls::Str),
         // a literal suffix must start like an identifier: a digit or `.5` after the closing quote
@@ -344,8 +346,8 @@ pub fn gen_sep(src: &mut Src, prev: Option<&Lexeme>, next: Option<&Lexeme>, mini
                 s.push('\n');
             }
             Cls::Version => {
-                first_ws = true;
-                must = true;
+                // white space or a comment of either kind, unless `;` follows
+                must = !matches!(next, Some(n) if can_join(p, n));
             }
             Cls::Punct('/') => first_ws = true,
             _ => {}
